@@ -73,12 +73,13 @@ UNLESS = ["TypeOK", "FreshAfterOpUnlessDev", "ValidIffUnlessDev", "HashTotalUnle
 def model_check(ctx: Ctx) -> None:
     common = dict(classes=fv.ALL_CLS, max_objs=2, mtimes=[1, 2])
     if ctx.quick:
-        plan = [("as-built", U_FULL, [2, 3], 3), ("as-built", U_TWO_DIRS, [2], 4), ("repaired", U_FULL, [2, 3], 3)]
+        plan = [("as-built", U_FULL, [2, 3], 3), ("as-built", U_TWO_DIRS, [2], 4), ("repaired", U_FULL, [2], 3)]
     else:
         plan = [("as-built", U_ONE_DIR, [1, 2, 3], 5), ("as-built", U_TWO_DIRS, [2, 3], 5),
                 ("as-built", U_FULL, [2], 4), ("repaired", U_ONE_DIR, [1, 2, 3], 4),
                 ("repaired", U_TWO_DIRS, [2, 3], 4)]
     runs = []
+    timing: list = []
     witnesses: set = set()
     for kind, u, bts, depth in plan:
         ab = kind == "as-built"
@@ -95,7 +96,9 @@ def model_check(ctx: Ctx) -> None:
         else:
             ctx.require(not res.recs("WITNESS"), "the repaired model printed a control witness")
         runs.append(f"{what}: {res.distinct} states, {res.generated} transitions")
+        timing.append(round(res.wall_s, 1))
     ctx.note("model_runs", runs)
+    ctx.note("model_run_seconds", timing)
     # model-level controls: in the as-built model TLC reaches states in which the strict invariants
     # are false (printed by Witness), each through its named deviation; the Unless-invariants of the
     # same runs show that they fail through nothing else, the repaired runs that they hold strictly
